@@ -195,6 +195,48 @@ class Directory:
                 if probe not in expected and get_members(probe) is not None:
                     out.append((kind + '-kept-empty-or-stale',
                                 '{} {} still listed'.format(kind, probe)))
+        out.extend(self.iteration_problems())
+        return out
+
+    def iteration_problems(self):
+        """An iteration in progress, as the VM performs it (VmDiscover): from
+        any name - present or since removed - of any set - present or since
+        vanished - the next step is the nearest remaining member in that
+        direction, or the end; never an error."""
+        import types
+        from bardolph.vm.vm_codes import Operand
+        from bardolph.vm.vm_discover import VmDiscover
+        out = []
+        reg = types.SimpleNamespace(operand=None, disc_forward=True,
+                                    result=None)
+        stepper = VmDiscover(None, reg)
+        for operand, index, universe in (
+                (Operand.GROUP, 0, GROUPS), (Operand.LOCATION, 1, LOCS)):
+            for set_name in universe:
+                members = sorted(n for n, v in self.model.items()
+                                 if v[index] == set_name)
+                for current in NAMES:
+                    for forward in (True, False):
+                        reg.operand, reg.disc_forward = operand, forward
+                        if forward:
+                            rest = [m for m in members if m > current]
+                            want = rest[0] if rest else Operand.NULL
+                        else:
+                            rest = [m for m in members if m < current]
+                            want = rest[-1] if rest else Operand.NULL
+                        try:
+                            stepper.dnextm(set_name, current)
+                            got = reg.result
+                        except Exception as ex:     # noqa
+                            got = 'raised {!r}'.format(ex)
+                        if got != want:
+                            out.append((
+                                'member-step', 'stepping {} from {} in {} {} '
+                                '(members {}) gave {!r}, expected {!r}'.format(
+                                    'forward' if forward else 'backward',
+                                    current, operand.name.lower(), set_name,
+                                    members, got, want)))
+                            return out
         return out
 
 
